@@ -172,14 +172,428 @@ STATIC_LONG = {"id": "s", "mode": "lower", "outcome": "returned", "chain": [0, 2
                "pts": [[0, 5], [1, 4], [2, 1], [3, 2], [4, 0]]}
 
 
+# ---------------------------------------------------------------------------------------------------------------------
+# scale family: production-size inputs (10^2.5 .. 10^5 points) judged by Trace_HullScale from SPARSE oracle tables
+# ---------------------------------------------------------------------------------------------------------------------
+# Every input has integer coordinates with (x range) * (y range) < 2^52: each orientation test is an exactly representable
+# integer in binary64 as well as in int64, so there is no rounding noise to excuse - the exact hull is demanded at any size.
+EXACT = 2 ** 52
+CHAIN_SHAPES = ("valley", "noisyvalley", "convex", "convexpl", "tradeoff", "random", "hook", "plunge", "staircase", "zigzag")
+SET_SHAPES = ("gp", "box", "disc", "convexpos", "line")
+SET_CAP = {"convexpos": (4200, 8400), "line": (10500, 33000)}      # (quick, thorough) size caps: quadratic index recovery / sqrt tie-breaks
+CHAIN_DTYPES = ("f64", "i64", "f64s")                               # f64s: both coordinates scaled by 2^-20 (exact)
+
+
+def _rle(v):
+    """run-length code of a 1-D integer array: [[value, count], ...]"""
+    v = np.asarray(v, dtype=np.int64)
+    if len(v) == 0:
+        return []
+    cut = np.flatnonzero(np.diff(v) != 0) + 1
+    st = np.concatenate([[0], cut])
+    en = np.concatenate([cut, [len(v)]])
+    return [[int(a), int(b)] for a, b in zip(v[st].tolist(), (en - st).tolist())]
+
+
+def _curve(shape, n, seed, neg, flip, spacing):
+    """x-sorted integer curve (strictly increasing x) of one of CHAIN_SHAPES; a deterministic function of its arguments.
+    The shapes are described for the LOWER hull; neg mirrors them for the upper hull, flip mirrors left / right."""
+    import random
+    from harness import scale
+    rng = np.random.default_rng([18, seed, n, CHAIN_SHAPES.index(shape)])
+    pyr = random.Random(seed * 7919 + n)
+    i = np.arange(n, dtype=np.int64)
+    for attempt in range(3):
+        # attempt 0: the requested spacing; 1: unit spacing; 2: unit spacing and ordinates / 64 (the last two only if the
+        # exactness bound failed)
+        dx = rng.integers(1, 4 if n <= 60000 else 3, n).astype(np.int64) if (spacing == "ragged" and attempt == 0) else np.ones(n, dtype=np.int64)
+        x = np.cumsum(dx) - dx[0]
+        if shape == "valley":             # floored parabola: vertices on both branches, the chain must climb to n-1
+            y = scale.valley(n, pyr)[:, 1].astype(np.int64)
+        elif shape == "noisyvalley":
+            m = int(rng.integers(n // 3, 2 * n // 3 + 1))
+            y = (i - m) ** 2 // 4 + rng.integers(0, 1000, n)
+        elif shape == "convex":           # strictly increasing slopes: EVERY point is a vertex (chain of n entries)
+            m = int(rng.integers(n // 4, 3 * n // 4 + 1))
+            y = np.cumsum((i - m) * dx)
+        elif shape == "convexpl":         # convex piecewise linear: long exactly collinear runs, only the corners are vertices
+            corners = int(rng.integers(3, 200))
+            w = max(2, n // (corners + 1))
+            y = np.cumsum((i // w - corners // 2) * dx)
+        elif shape == "tradeoff":         # the usual decreasing noisy convex trade-off curve
+            y = (n - i) ** 2 // 8 + rng.integers(0, 50, n)
+        elif shape == "random":
+            y = rng.integers(0, 10 ** 6, n)
+        elif shape == "hook":             # decreasing convex, then an uptick in the last r points (vertices at the far right end)
+            r = int(rng.integers(1, 41))
+            q = n - r
+            y = (n - i) ** 2 // 16
+            y[q:] = y[q - 1] + (i[q:] - q + 1) * int(rng.integers(1, 1000))
+        elif shape == "plunge":           # a convex run (every point stacked) and then one point far below: everything is popped
+            r = int(rng.integers(0, 41))
+            q = n - 1 - r
+            y = np.cumsum(i * dx)         # slope i: convex in x for either spacing
+            y[q:] = -(int(y.max()) + n) + (i[q:] - q) ** 2 * n * 4
+        elif shape == "staircase":
+            y = scale.staircase(n, int(rng.integers(4, 300)), pyr)[:, 1].astype(np.int64)
+        elif shape == "zigzag":           # amplitude grows to the right (dyadic ordinates times 64)
+            y = np.round(scale.zigzag(n)[:, 1] * 64.0).astype(np.int64)
+        else:
+            raise ValueError(shape)
+        y = np.asarray(y, dtype=np.int64)
+        if attempt == 2:
+            y = y // 64
+        if int(x[-1] - x[0]) * int(y.max() - y.min()) < EXACT:
+            break
+    else:
+        raise ValueError("scale curve %s n=%d outside the exact domain" % (shape, n))
+    if flip:
+        y = y[::-1].copy()
+    if neg:
+        y = -y
+    return x, y
+
+
+def _next_prime(n):
+    n = max(3, n | 1)
+    while any(n % d == 0 for d in range(3, int(n ** 0.5) + 1, 2)):
+        n += 2
+    return n
+
+
+def _pointset(shape, n, seed):
+    """n (about) DISTINCT integer points in a shuffled order; returns (X, Y, general): general = no three collinear, known
+    by construction (it is never searched for at this size)."""
+    rng = np.random.default_rng([1818, seed, n, SET_SHAPES.index(shape)])
+    general = False
+    if shape == "gp":                   # (i, i^2 mod p), p prime: a line meets the parabola mod p in at most 2 points
+        p = _next_prime(n)
+        X = np.arange(n, dtype=np.int64)
+        Y = (X * X) % p
+        general = True
+    elif shape == "box":                # random points strictly inside a box + collinear runs on all four sides + the corners
+        W = 4 * n
+        k = max(4, n // 8)
+        inner = rng.integers(1, W, (n, 2))
+        s = rng.choice(np.arange(1, W), size=(4, k), replace=False) if W - 1 >= 4 * k else rng.integers(1, W, (4, k))
+        side = np.concatenate([np.column_stack([s[0], np.zeros(k, np.int64)]), np.column_stack([s[1], np.full(k, W)]),
+                               np.column_stack([np.zeros(k, np.int64), s[2]]), np.column_stack([np.full(k, W), s[3]])])
+        P = np.concatenate([inner, side, [[0, 0], [0, W], [W, 0], [W, W]]]).astype(np.int64)
+        P = np.unique(P, axis=0)
+        X, Y = P[:, 0], P[:, 1]
+    elif shape == "disc":               # random lattice points of a disc: a hull of the order of n^(1/3) vertices, many pops
+        R = 8 * n
+        P = rng.integers(-R, R + 1, (3 * n, 2)).astype(np.int64)
+        P = P[P[:, 0] ** 2 + P[:, 1] ** 2 <= R * R]
+        P = np.unique(P, axis=0)
+        P = P[rng.permutation(len(P))[:n]]
+        X, Y = P[:, 0], P[:, 1]
+    elif shape == "convexpos":          # two parabola arcs: EVERY point is an extreme vertex (strictly convex polygon)
+        m = max(2, n // 4)
+        a = np.arange(-m, m + 1, dtype=np.int64)
+        b = np.arange(-m + 1, m, dtype=np.int64)
+        X = np.concatenate([a, b])
+        Y = np.concatenate([a * a, 2 * m * m - b * b])
+        general = True
+    elif shape == "line":               # fully collinear set on an oblique line
+        dxy = [(1, 0), (0, 1), (3, 2), (5, -7), (1, 1)][seed % 5]
+        t = np.unique(rng.integers(0, 4 * n, n)).astype(np.int64)
+        X, Y = 17 + dxy[0] * t, -5 + dxy[1] * t
+    else:
+        raise ValueError(shape)
+    perm = rng.permutation(len(X))
+    X, Y = np.ascontiguousarray(X[perm]), np.ascontiguousarray(Y[perm])
+    assert int(X.max() - X.min() + 1) * int(Y.max() - Y.min() + 1) < EXACT
+    return X, Y, general
+
+
+def _cross(ax, ay, bx, by, cx, cy):
+    return (bx - ax) * (cy - ay) - (cx - ax) * (by - ay)
+
+
+def _exact_planar_hull(X, Y):
+    """extreme vertices (indices) of a set of distinct integer points, counter-clockwise from the lexicographic minimum,
+    in exact integer arithmetic (Andrew's monotone chain, collinear points dropped)."""
+    order = np.lexsort((Y, X)).tolist()
+    xs, ys = X.tolist(), Y.tolist()
+
+    def half(seq):
+        st = []
+        for k in seq:
+            while len(st) >= 2 and _cross(xs[st[-2]], ys[st[-2]], xs[st[-1]], ys[st[-1]], xs[k], ys[k]) <= 0:
+                st.pop()
+            st.append(k)
+        return st
+    lo, up = half(order), half(order[::-1])
+    ccw = lo[:-1] + up[:-1]
+    if len(ccw) < 2:
+        ccw = lo[:1] + up[:1]
+    return ccw
+
+
+def _encode_chain(cid, mode, x, y, outcome, chain):
+    """the Trace_HullScale record of a lower / upper chain: run-length coded steps and exact cross-product sign tables for
+    the triples / spans the chain mentions (x, y: int64)."""
+    n = len(x)
+    c = np.asarray(chain, dtype=np.int64)
+    L = len(c)
+    big = 2 ** 30
+    lo = int(min(max(int(c.min()), -big), big)) if L else -1
+    hi = int(min(max(int(c.max()), -big), big)) if L else -1
+    rec = {"id": cid, "kind": "chain", "mode": mode, "outcome": outcome, "n": n, "len": L,
+           "first": int(min(max(int(c[0]), -big), big)) if L else -1, "lo": lo, "hi": hi, "steps": [], "turn": [], "edge": []}
+    if outcome != "returned" or L < 2 or lo < 0 or hi >= n:
+        return rec
+    d = np.diff(c)
+    rec["steps"] = _rle(d)
+    if L >= 3:
+        a, b, e = c[:-2], c[1:-1], c[2:]
+        rec["turn"] = _rle(np.sign(_cross(x[a], y[a], x[b], y[b], x[e], y[e])))
+    if np.all(d > 0):
+        k = np.arange(int(c[0]), int(c[-1]) + 1)
+        seg = np.minimum(np.searchsorted(c, k, side="right") - 1, L - 2)
+        a, b = c[seg], c[seg + 1]
+        s = np.sign(_cross(x[a], y[a], x[b], y[b], x[k], y[k]))
+        red = np.minimum if mode == "lower" else np.maximum
+        rec["edge"] = _rle(red.reduceat(s, c[:-1] - c[0]))
+    return rec
+
+
+def _encode_graham(cid, X, Y, general, outcome, got):
+    n = len(X)
+    rec = {"id": cid, "kind": "graham", "mode": "graham", "outcome": outcome, "n": n, "got": [], "bnd": [], "ext": [],
+           "n_ext": 0, "general": bool(general), "exp": [], "alt": -1}
+    if outcome != "returned":
+        return rec
+    ccw = _exact_planar_hull(X, Y)
+    ext = set(ccw)
+    hx, hy = X[ccw], Y[ccw]
+    jx, jy = np.roll(hx, -1), np.roll(hy, -1)
+    big = 2 ** 30
+    bnd, exf = [], []
+    for g in got:
+        if not (0 <= g < n):
+            bnd.append(0)
+            exf.append(0)
+            continue
+        px, py = int(X[g]), int(Y[g])
+        on = (_cross(hx, hy, jx, jy, px, py) == 0) & (np.minimum(hx, jx) <= px) & (px <= np.maximum(hx, jx)) \
+            & (np.minimum(hy, jy) <= py) & (py <= np.maximum(hy, jy))
+        bnd.append(int(bool(on.any())))
+        exf.append(int(g in ext))
+    rec.update(got=[int(min(max(g, -big), big)) for g in got], bnd=bnd, ext=exf, n_ext=len(ext),
+               exp=([ccw[0]] + ccw[:0:-1]) if general else [],
+               alt=int(np.lexsort((X, Y))[0]))
+    return rec
+
+
+def _scale_input(item):
+    """(points array as handed to the library, integer x, integer y, general) of one scale item"""
+    cid, kind, shape, n, seed, mode, neg, flip, spacing, dtype = item
+    if kind == "chain":
+        x, y = _curve(shape, n, seed, neg, flip, spacing)
+        general = None
+    else:
+        x, y, general = _pointset(shape, n, seed)
+    P = np.ascontiguousarray(np.column_stack([x, y]))
+    if dtype == "i64":
+        P = P.astype(np.int64)
+    elif dtype == "f64s":
+        P = P.astype(float) * 2.0 ** -20
+    else:
+        P = P.astype(float)
+    return P, x, y, general
+
+
+def _scale_case(item):
+    """record one scale item: call the library under the loop budget (quadratic in n: the scans are linear, the index
+    recovery of graham_scan quadratic at worst) and reduce the result to the sparse Trace_HullScale record."""
+    import kneeliverse.convex_hull as ch
+    from harness import monitor
+    cid, kind, shape, n, seed, mode, neg, flip, spacing, dtype = item
+    P, x, y, general = _scale_input(item)
+    fn = {"lower": ch.graham_scan_lower, "upper": ch.graham_scan_upper, "graham": ch.graham_scan}[mode]
+    P0 = P.copy()
+    out, val, counts = monitor.call(fn, (P,), budget=monitor.quad(len(P), 16), wall=300)
+    got = []
+    if out == "returned":
+        try:
+            arr = np.asarray(val)
+            if arr.ndim != 1 or (arr.size and arr.dtype.kind not in "iu"):
+                out = "returned-not-an-index-array:%s%s" % (arr.dtype, list(arr.shape))
+            else:
+                got = [int(v) for v in arr.tolist()]
+        except Exception as ex:
+            out = "returned-not-an-index-array:" + type(ex).__name__
+    elif out.startswith("raised"):
+        out = out + ":" + str(val)[:120]
+    if kind == "chain":
+        rec = _encode_chain(cid, mode, x, y, out, got)
+        nontrivial = out == "returned" and len(got) < len(x)
+    else:
+        rec = _encode_graham(cid, x, y, general, out, got)
+        nontrivial = out == "returned" and (rec["n_ext"] < len(x) or (general and len(x) >= 4))
+    info = {"n": len(x), "len": len(got), "head": got[:6], "tail": got[-6:], "nontrivial": bool(nontrivial),
+            "back_edges": int(sum(counts.values())),
+            "input_mutated": bool(P.shape != P0.shape or not np.array_equal(P, P0))}
+    return rec, info
+
+
+def _scale_items(ctx):
+    from harness import scale
+    sizes = scale.sizes(ctx, lo=200, hi=110000, k_quick=8, k_thorough=14)
+    items = []
+    r = ctx.rng
+    for n in sizes:
+        for shape in CHAIN_SHAPES:
+            for mode in ("lower", "upper"):
+                aligned = 1 if mode == "upper" else 0          # the shape's structure faces the hull that is asked for
+                # hook / plunge stress the far RIGHT end of the scan: their first variant is never mirrored
+                variants = [(aligned, r.randrange(2) if shape not in ("hook", "plunge") else 0,
+                             r.choice(("unit", "ragged")), r.choice(CHAIN_DTYPES))]
+                if not ctx.quick:
+                    variants.append((aligned, 1 - variants[0][1], r.choice(("unit", "ragged")), r.choice(CHAIN_DTYPES)))
+                    variants.append((1 - aligned, r.randrange(2), r.choice(("unit", "ragged")), r.choice(CHAIN_DTYPES)))
+                elif r.randrange(4) == 0:
+                    variants.append((1 - aligned, r.randrange(2), "unit", "f64"))
+                for neg, flip, spacing, dtype in variants:
+                    items.append(["S%d" % len(items), "chain", shape, n, r.randrange(10 ** 6), mode, neg, flip, spacing, dtype])
+    cap = 25000 if ctx.quick else 110000
+    for n in sizes:
+        for shape in SET_SHAPES:
+            m = min(n, cap, SET_CAP.get(shape, (cap, cap))[0 if ctx.quick else 1])
+            if m < n and any(it[1] == "graham" and it[2] == shape and it[3] == m for it in items):
+                continue                                         # the capped size is already there
+            items.append(["S%d" % len(items), "graham", shape, m, r.randrange(10 ** 6), "graham", 0, 0, "unit", r.choice(("f64", "i64"))])
+    return sizes, items
+
+
+_SX = np.array([0, 1, 2, 3, 4], dtype=np.int64)
+_SY = np.array([5, 4, 1, 2, 0], dtype=np.int64)
+_GX = np.array([0, 2, 2, 0, 1, 1], dtype=np.int64)
+_GY = np.array([0, 0, 2, 2, 1, 0], dtype=np.int64)
+_HX = np.array([0, 4, 3, 1, 2], dtype=np.int64)       # general position, (2, 2) interior
+_HY = np.array([0, 1, 4, 3, 2], dtype=np.int64)
+
+
+def _scale_selftests():
+    """STATIC records (independent of the code under test): the good ones must be accepted, each corrupted one rejected
+    with its clause."""
+    return [(_encode_chain("s", "lower", _SX, _SY, "returned", [0, 2, 4]), "ok"),
+            (_encode_chain("s", "upper", _SX, -_SY, "returned", [0, 2, 4]), "ok"),
+            (_encode_chain("s", "lower", _SX, _SY, "returned", [0, 1, 2, 4]), "strict-turns"),
+            (_encode_chain("s", "lower", _SX, _SY, "returned", [0, 4]), "chain-is-hull"),
+            (_encode_chain("s", "lower", _SX, _SY, "returned", [0, 2, 3]), "chain-endpoints"),
+            (_encode_chain("s", "lower", _SX, _SY, "returned", [0, 2, 5]), "chain-endpoints"),
+            (_encode_chain("s", "upper", _SX, _SY, "returned", [0, 2, 4]), "strict-turns"),
+            (_encode_chain("s", "lower", _SX, _SY, "budget", []), "completes"),
+            (_encode_graham("s", _GX, _GY, False, "returned", [0, 3, 2, 1]), "ok"),
+            (_encode_graham("s", _GX, _GY, False, "returned", [0, 3, 2, 1, 5]), "ok"),
+            (_encode_graham("s", _GX, _GY, False, "returned", [0, 3, 2]), "graham-contains-extremes"),
+            (_encode_graham("s", _GX, _GY, False, "returned", [0, 3, 2, 1, 4]), "graham-only-boundary"),
+            (_encode_graham("s", _GX, _GY, False, "returned", [0, 3, 2, 1, 1]), "graham-only-boundary"),
+            (_encode_graham("s", _HX, _HY, True, "returned", [0, 3, 2, 1]), "ok"),
+            (_encode_graham("s", _HX, _HY, True, "returned", [0, 1, 2, 3]), "graham-exact-general-position")]
+
+
+def _exact_chain_int(x, y, mode):
+    """the hull chain of an x-sorted integer curve (python integers: exact at any magnitude)"""
+    xs, ys = [int(v) for v in x], [int(v) for v in y]
+    sg = 1 if mode == "lower" else -1
+    st = []
+    for k in range(len(xs)):
+        while len(st) >= 2 and sg * _cross(xs[st[-2]], ys[st[-2]], xs[st[-1]], ys[st[-1]], xs[k], ys[k]) <= 0:
+            st.pop()
+        st.append(k)
+    return st
+
+
+def _scale_detail(item, info, verdict):
+    """diagnostics for a rejected scale case (computed from the exact hull here, never part of the verdict; the library
+    is not called again)"""
+    cid, kind, shape, n, seed, mode, neg, flip, spacing, dtype = item
+    d = {"verdict": [str(v)[:200] for v in verdict], "shape": shape, "n": info["n"], "mode": mode,
+         "options": {"neg": neg, "flip": flip, "spacing": spacing, "dtype": dtype},
+         "got_len": info["len"], "got_head": info["head"], "got_tail": info["tail"]}
+    try:
+        P, x, y, general = _scale_input(item)
+        if kind == "chain":
+            exp = _exact_chain_int(x, y, mode)
+            d["expected_len"] = len(exp)
+            d["expected_head"] = exp[:6]
+            d["expected_tail"] = exp[-6:]
+        else:
+            ccw = _exact_planar_hull(x, y)
+            d["n_extreme"] = len(ccw)
+            d["extreme_clockwise_head"] = ([ccw[0]] + ccw[:0:-1])[:8]
+    except Exception as ex:
+        d["diagnostics_failed"] = repr(ex)[:200]
+    return d
+
+
+def _run_scale(ctx):
+    import time
+    t0 = time.time()
+    sizes, items = _scale_items(ctx)
+    order = sorted(range(len(items)), key=lambda k: -items[k][3])          # long inputs first: better load balance
+    res = par.pmap(_scale_case, [items[k] for k in order], chunksize=1)
+    recs = [None] * len(items)
+    for k, r in zip(order, res):
+        recs[k] = r
+    t1 = time.time()
+    rej = ctx.trace("Trace_HullScale", [r for r, _ in recs], selftest=_scale_selftests(), chunk=125)
+    t2 = time.time()
+    by = {it[0]: it for it in items}
+    infos = {it[0]: info for it, (_, info) in zip(items, recs)}
+    shapes, longest, nbytes, margin = {}, 0, 0, 0.0
+    import json
+    from harness import monitor
+    for it, (rec, info) in zip(items, recs):
+        ctx.count(("S", it[1:]), info["nontrivial"])
+        key = "%s/%s" % (it[5], it[2])
+        shapes[key] = shapes.get(key, 0) + 1
+        longest = max(longest, info["len"])
+        nbytes += len(json.dumps(rec))
+        margin = max(margin, info["back_edges"] / float(monitor.quad(info["n"], 16)))
+        if info["input_mutated"]:
+            ctx.note("scale: %s modified its argument (n=%d, %s) - owned by C20, not judged here" % (it[5], info["n"], it[2]))
+    seen = {}
+    for cid, vs in rej.items():
+        clause = vs[0][0]
+        if clause == "malformed-record":
+            from harness.main import Machinery
+            raise Machinery("Trace_HullScale: the recorder produced a malformed record for %s: %s" % (by[cid], vs))
+        k = (clause, by[cid][5])
+        seen[k] = seen.get(k, 0) + 1
+        if seen[k] <= 3:
+            ctx.violation(clause, {"kind": "S", "scale": by[cid]}, _scale_detail(by[cid], infos[cid], vs[0]))
+    ctx.extra["scale"] = {"sizes": sizes, "cases": len(items), "cases_by_mode_shape": shapes, "longest_chain": longest,
+                          "json_bytes_to_tlc": nbytes, "largest_fraction_of_loop_budget_used": round(margin, 6),
+                          "rejected_by_clause": {"%s/%s" % k: v for k, v in seen.items()},
+                          "wall_s": {"replay": round(t1 - t0, 1), "tlc": round(t2 - t1, 1)}}
+    big = max(range(len(items)), key=lambda k: (items[k][1] == "chain" and items[k][2] == "valley", items[k][3]))
+    ctx.sample({"binding": "T-scale", "item": items[big], "record": recs[big][0]})
+    ctx.note("scale: graham-exact-general-position is judged only on the sets that are in general position by construction "
+             "(gp, convexpos); for the other large sets general position is not searched for (cubic) and only the "
+             "superset / subset clauses are judged")
+
+
 def run(ctx):
     ctx.rule = ("TLC enumerates every grid curve (n<=NMax, y in 0..YMax, 3 spacing patterns) for the lower/upper "
                 "chains and every SetMin..SetMax-point subset of the grid for graham_scan, checks the machines against "
                 "the brute-force hull and emits each behaviour for replay.  non-trivial: chain drops at least one point, "
-                "or the point set has a non-extreme point / is in general position with >= 4 points")
+                "or the point set has a non-extreme point / is in general position with >= 4 points.  "
+                "scale family: x-sorted integer curves of 10 shapes (valley, convex, collinear runs, hook / plunge at the far "
+                "right end, noise ...) and point sets of 5 shapes (general position, box with collinear sides, disc, convex "
+                "position, fully collinear) with 200 .. 110000 points (sizes straddling 2^8 .. 2^16, 10^4, 10^5), float64 / "
+                "int64 / 2^-20-scaled, are replayed into the three routines under a quadratic loop budget; Trace_HullScale "
+                "judges the same clauses from sparse exact cross-product sign tables (run-length coded)")
     ctx.assumptions += ["coordinates are small integers, so the orientation predicate is exact in binary64",
                         "graham_scan start vertex: lexicographic (x,y) minimum as in the code; a rotation starting at the (y,x) minimum is tolerated",
-                        "every behaviour is also replayed scaled by 2^-20 and by 2^20 (+3*2^20 translation): exact in binary64, same hull"]
+                        "every behaviour is also replayed scaled by 2^-20 and by 2^20 (+3*2^20 translation): exact in binary64, same hull",
+                        "scale family: integer coordinates with (x range)*(y range) < 2^52, so every orientation test is exact in "
+                        "binary64 and in int64 at any size: no tolerance, the exact hull is demanded; the sign tables sent to TLC are "
+                        "computed in int64 / python integers by the harness (trusted, like the recorder)"]
     ctx.mc("Hull", "MC_Hull_unguarded", expect="NoUnderflow")
     ctx.mc("Hull", "MC_Hull_small", need_actions=("ChainPop", "ChainPush", "GrahamSort", "GrahamPop", "GrahamPush", "Return"))
     beh = ctx.gen("Hull", "Gen_Hull_quick" if ctx.quick else "Gen_Hull_thorough", timeout=3000)
@@ -216,9 +630,18 @@ def run(ctx):
         ctx.violation(vs[0][0], {"kind": "Tlong", "long": metaL[cid]["long"]}, {"verdict": [str(v)[:200] for v in vs[0]]})
     ctx.sample({"binding": "G", "behaviour": next(b for b in beh if b["mode"] == "lower" and len(b["pts"]) == 5 and len(b["result"]) == 3)})
     ctx.sample({"binding": "G", "behaviour": next(b for b in beh if b["mode"] == "graham" and len(b["pts"]) == 5 and not b["general"])})
+    # ---- T: production-size inputs
+    _run_scale(ctx)
 
 
 def replay(ctx, obj):
+    if obj["case"].get("kind") == "S":
+        item = list(obj["case"]["scale"])
+        rec, info = _scale_case(item)
+        rej = ctx.trace("Trace_HullScale", [rec])
+        for cid, vs in rej.items():
+            ctx.violation(vs[0][0], obj["case"], _scale_detail(item, info, vs[0]))
+        return
     if obj["case"].get("kind") == "Tlong":
         c, m = _record_long(tuple(obj["case"]["long"]))
         rej = ctx.trace("Trace_Hull", [c])
